@@ -421,7 +421,7 @@ func genDrawing(r *simrt.Rand, l latticeCfg, nfonts int) *Drawing {
 		if r.Bool(0.3) {
 			it.Rot = float64(r.Intn(8)) * 45
 		}
-		if r.Bool(0.12) {
+		if r.Bool(0.2) {
 			it.Kind = "image"
 			it.ImgW, it.ImgH = 2+r.Intn(9), 2+r.Intn(9)
 			it.ImgSeed = r.Uint64()
@@ -464,6 +464,15 @@ func genDrawThenRender(r *simrt.Rand, l latticeCfg, nfonts int) (Step, Step) {
 
 func genRenderStep(r *simrt.Rand, l latticeCfg, nfonts int) Step {
 	st := Step{Op: "render", Draw: genDrawing(r, l, nfonts), Format: formats[r.Intn(len(formats))], Opt: r.Intn(8)}
+	for _, it := range st.Draw.Items {
+		if it.Kind == "image" && r.Bool(0.5) {
+			st.Format = []string{"pdf", "pdf", "svg", "png"}[r.Intn(4)] // image embedding paths
+		}
+		// hatch patterns are only drawn by the rasterizer (the other renderers skip them)
+		if (it.Paint == 3 || it.Paint == 4 || it.Paint == 7 || it.Paint == 8) && r.Bool(0.6) {
+			st.Format = "png"
+		}
+	}
 	if r.Bool(0.1) {
 		st.FailAt = 1 + r.Intn(12) // disk full / EIO on the k-th write of the renderer
 	} else if r.Bool(0.3) {
